@@ -4,7 +4,10 @@ package main
 
 import (
 	"fmt"
+	"go/ast"
+	"go/token"
 	"go/types"
+	"sort"
 	"strings"
 
 	"golang.org/x/tools/go/ssa"
@@ -509,4 +512,68 @@ func readsFromSameType(v ssa.Value, nt *types.Named) bool {
 		v = next
 	}
 	return false
+}
+
+// ---- enum-keyed lookup tables (the table form of a total switch) ------------------------------------------
+
+type enumTable struct {
+	Pkg     string
+	Pos     token.Pos
+	Covered []string
+	Missing []string
+}
+
+// enumKeyedMapLiterals finds map composite literals whose key type is the named enum type; for each, which of the
+// enum's declared constants are keys.
+func (e *Engine) enumKeyedMapLiterals(typeName string) []enumTable {
+	var out []enumTable
+	for _, p := range e.modulePackages(false) {
+		for _, f := range p.Syntax {
+			ast.Inspect(f, func(n ast.Node) bool {
+				cl, ok := n.(*ast.CompositeLit)
+				if !ok {
+					return true
+				}
+				t := p.TypesInfo.TypeOf(cl)
+				if t == nil {
+					return true
+				}
+				mt, ok := t.Underlying().(*types.Map)
+				if !ok {
+					return true
+				}
+				named, ok := types.Unalias(mt.Key()).(*types.Named)
+				if !ok || named.Obj().Name() != typeName {
+					return true
+				}
+				keys := map[string]bool{}
+				for _, el := range cl.Elts {
+					if kv, ok := el.(*ast.KeyValueExpr); ok {
+						if tv := p.TypesInfo.Types[kv.Key]; tv.Value != nil {
+							keys[tv.Value.ExactString()] = true
+						}
+					}
+				}
+				tb := enumTable{Pkg: short(p.PkgPath), Pos: cl.Pos()}
+				seen := map[string]bool{}
+				for _, c := range enumConsts(named) {
+					v := c.Val().ExactString()
+					if seen[v] {
+						continue
+					}
+					seen[v] = true
+					if keys[v] {
+						tb.Covered = append(tb.Covered, c.Name())
+					} else {
+						tb.Missing = append(tb.Missing, c.Name())
+					}
+				}
+				sort.Strings(tb.Covered)
+				sort.Strings(tb.Missing)
+				out = append(out, tb)
+				return true
+			})
+		}
+	}
+	return out
 }
